@@ -485,7 +485,13 @@ def loc_rules(crate, base, query, res):
         has_article = any(strip_refs(a) == ("param", 2) for a in args)
         recs = [x for x in n_only if v.callee(x) is not None and v.callee(x).fn is not None and v.callee(x).path == rec.path]
         if not has_article or len(recs) != 1 or strip_refs(deep(v, v.origin(v.blocks[recs[0]]["term"]["args"][0]))) != ("param", 1):
-            fs.append(fnd(rule, v, "a non-origin location is not rendered as `<article> <path of this location>`"))
+            f_ = fnd(rule, v, "a non-origin location is not rendered as `<article> <path of this location>`")
+            if not args and len(recs) == 1 and any(v.callee(x) is not None and v.callee(x).fn is not None and v.callee(x).name in ("push_str", "push", "write_str", "concat", "join")
+                                                       for x in n_only):
+                # assembled with push_str / concat instead of format!: the pieces of the outer text were not read
+                f_.what += ": the text is not built with format! and its pieces were not read: not recognised (undecided)"
+                f_.undecided = True
+            fs.append(f_)
     # rec: what one step renders, whatever the style (returned string built with + / format!, or appended to a buffer)
     rv = View(rec)
     info = None
